@@ -179,14 +179,15 @@ structure Handle where
 
 /-- `kwajd_open(base, filename)`: `file` = what `sys->open` finds (`none` = NULL); `err` = the
     value of `self->error` before the call.  Returns the header (or NULL) and `self->error`
-    afterwards: a successful open leaves it untouched. -/
+    afterwards (since b0be7a7 a successful open records MSPACK_ERR_OK; `err` is kept as a
+    parameter only for the callers' convenience). -/
 def open_ (fill : UInt8) (err : Err) (file : Option Bytes) : Except Fault (Option Handle × Err) :=
   match file with
   | none => .ok (none, .open_)
   | some bytes =>
     match readHeaders fill ⟨bytes, 0⟩ with
     | .error f => .error f
-    | .ok (.ok hdr, r) => .ok (some ⟨hdr, r⟩, err)
+    | .ok (.ok hdr, r) => let _ := err; .ok (some ⟨hdr, r⟩, .ok)
     | .ok (.error e, _) => .ok (none, e)      -- kwajd_close (error := OK), then error := e
 
 end MsPack.Kwaj
